@@ -94,19 +94,21 @@ def document(a, canary, dtd, port):
             decl.append('<!ENTITY e%d "%s">' % (d, ('&e%d;' % (d - 1)) * fan))
         prolog = '<!DOCTYPE f [%s]>' % ''.join(decl)
         ent = '&e%d;' % depth
-    elif k == 'entity_depth_50':
-        decl = ['<!ENTITY e0 "%s">' % REPL] + ['<!ENTITY e%d "&e%d;">' % (d, d - 1) for d in range(1, 51)]
+    elif k.startswith('entity_depth_'):
+        n = int(k[13:])
+        decl = ['<!ENTITY e0 "%s">' % REPL] + ['<!ENTITY e%d "&e%d;">' % (d, d - 1) for d in range(1, n + 1)]
         prolog = '<!DOCTYPE f [%s]>' % ''.join(decl)
-        ent = '&e50;'
-    elif k == 'quadratic_200k':
+        ent = '&e%d;' % n
+    elif k.startswith('quadratic_'):
+        n = int(k[10:-1]) * 1000
         prolog = '<!DOCTYPE f [<!ENTITY x "%s">]>' % (REPL + 'A' * 5000)
-        ent = '&x;' * 40000
+        ent = '&x;' * (n // 5)
     elif k.startswith('nest_'):
         n = int(k[5:])
         ent = '<d>' * n + 'deep' + '</d>' * n
-    elif k == 'attrs_50000':
+    elif k.startswith('attrs_'):
         ent = 'v'
-    extra_attrs = ''.join(' a%d="1"' % i for i in range(50000)) if k == 'attrs_50000' else ''
+    extra_attrs = ''.join(' a%d="1"' % i for i in range(int(k[6:]))) if k.startswith('attrs_') else ''
     in_attr = k not in ('xinclude_file',) and not k.startswith('nest_')
     s = 'a' + (ent if pos == 'text_unicode' else '') + 'b'
     n = ('5' + (ent if pos == 'text_integer' and not k.startswith('nest_') and k != 'xinclude_file' else '')) if pos == 'text_integer' else '5'
